@@ -6,6 +6,7 @@
 package main
 
 import (
+	"context"
 	"encoding/binary"
 	"encoding/hex"
 	"fmt"
@@ -19,12 +20,16 @@ import (
 	"github.com/pilosa/pilosa"
 	"github.com/pilosa/pilosa/boltdb"
 	"verifharness/vh"
+	"verifharness/vh/srv"
 )
 
 type prop struct {
 	dir     string
-	st      [2]pilosa.AttrStore
+	st      [4]pilosa.AttrStore // 0,1: bare bolt stores; 2,3: row / column attribute store of the e2e index
 	handles []map[string]interface{}
+	s       *srv.Server // in-process pilosa for the e2e lines, started on first use
+	nidx    int
+	index   string // e2e index of the current case ("" = not created yet)
 }
 
 func (p *prop) Rule() string {
@@ -32,6 +37,7 @@ func (p *prop) Rule() string {
 		"nil deletes, unsupported types), few keys (incl. the empty key and a Unicode key) and ids around the block edges 0,1,99,100,101,199,200, repeated and already-present " +
 		"values (early-return path), deleting every key of an id, reads of present and absent ids with and without a warm cache, writes by the caller into any map returned earlier, " +
 		"reopen, Blocks / BlockData / checksum comparison between the two stores (often fed the same updates in a different order) and Diff on real and on literal block lists; " +
+		"e2e cases drive SetRowAttrs (bulk and single path), SetColumnAttrs, Row() attributes and the attribute-diff API of an in-process server through PQL, mixed with direct access to the same stores; " +
 		"a case is non-trivial when an id is read after at least two updates, a caller mutation or a reopen touched it, or two non-empty stores are compared"
 }
 
@@ -182,11 +188,16 @@ func (p *prop) open(i int) error {
 }
 
 func (p *prop) reset() {
-	for i := range p.st {
+	for i := 0; i < 2; i++ {
 		if p.st[i] != nil {
 			p.st[i].Close()
 			p.st[i] = nil
 		}
+	}
+	p.st[2], p.st[3] = nil, nil
+	if p.index != "" {
+		_ = p.s.API.DeleteIndex(context.Background(), p.index)
+		p.index = ""
 	}
 	if p.dir != "" {
 		os.RemoveAll(p.dir)
@@ -237,14 +248,115 @@ func (p *prop) Exec(lines []string) []string {
 	return outs
 }
 
-func storeIdx(s string) (int, bool) {
+// ensureE2E creates the e2e index of this case (field "f") and wires stores 2 and 3 to the
+// attribute stores the executor uses.
+func (p *prop) ensureE2E() bool {
+	if p.index != "" {
+		return true
+	}
+	if p.s == nil {
+		p.s = srv.Start(2)
+	}
+	p.nidx++
+	index := fmt.Sprintf("c%d", p.nidx)
+	ctx := context.Background()
+	if _, err := p.s.API.CreateIndex(ctx, index, pilosa.IndexOptions{}); err != nil {
+		return false
+	}
+	if _, err := p.s.API.CreateField(ctx, index, "f", pilosa.OptFieldTypeSet("ranked", 100)); err != nil {
+		return false
+	}
+	h := p.s.Server.Holder()
+	p.index = index
+	p.st[2] = h.Field(index, "f").RowAttrStore()
+	p.st[3] = h.Index(index).ColumnAttrStore()
+	return true
+}
+
+func (p *prop) storeIdx(s string) (int, bool) {
 	switch s {
 	case "0":
 		return 0, true
 	case "1":
 		return 1, true
+	case "2":
+		return 2, p.ensureE2E()
+	case "3":
+		return 3, p.ensureE2E()
 	}
 	return 0, false
+}
+
+// e2eAttrs renders an attrs token as PQL arguments; only what PQL can express and re-read
+// unambiguously is accepted (keys [a-z]+, int64, strings [a-z0-9]+, bool, two float literals, null).
+func e2eAttrs(s string) (string, bool) {
+	if s == "_" {
+		return "", false // PQL wants at least one attribute
+	}
+	var out []string
+	seen := map[string]bool{}
+	for _, kv := range strings.Split(s, ";") {
+		parts := strings.Split(kv, "=")
+		if len(parts) != 2 {
+			return "", false
+		}
+		k, ok := parseKey(parts[0])
+		if !ok || k == "" || seen[k] {
+			return "", false
+		}
+		seen[k] = true
+		for _, c := range k {
+			if c < 'a' || c > 'z' {
+				return "", false
+			}
+		}
+		v := parts[1]
+		var lit string
+		switch {
+		case v == "~":
+			lit = "null"
+		case v == "b0":
+			lit = "false"
+		case v == "b1":
+			lit = "true"
+		case v == "f3ff8000000000000":
+			lit = "1.5"
+		case v == "fc002000000000000":
+			lit = "-2.25"
+		case strings.HasPrefix(v, "i"):
+			n, err := strconv.ParseInt(v[1:], 10, 64)
+			if err != nil {
+				return "", false
+			}
+			lit = strconv.FormatInt(n, 10)
+		case strings.HasPrefix(v, "s"):
+			b, err := hex.DecodeString(v[1:])
+			if err != nil || len(b) == 0 || strings.ToLower(v) != v {
+				return "", false
+			}
+			for _, c := range b {
+				if !(c >= 'a' && c <= 'z' || c >= '0' && c <= '9') {
+					return "", false
+				}
+			}
+			lit = `"` + string(b) + `"`
+		default:
+			return "", false
+		}
+		out = append(out, k+"="+lit)
+	}
+	return ", " + strings.Join(out, ", "), true
+}
+
+func (p *prop) pql(q string) ([]interface{}, string) {
+	res, err := p.s.Query(p.index, q, nil)
+	if err != nil {
+		if strings.Contains(err.Error(), "invalid attr type") {
+			return nil, "err:type"
+		}
+		return nil, "err:other"
+	}
+	return res, "ok"
 }
 
 func okOrType(err error) string {
@@ -287,7 +399,7 @@ func (p *prop) execLine(l string) string {
 	}
 	switch {
 	case ws[0] == "set" && len(ws) == 4:
-		i, ok0 := storeIdx(ws[1])
+		i, ok0 := p.storeIdx(ws[1])
 		id, err := strconv.ParseUint(ws[2], 10, 64)
 		m, ok1 := parseAttrs(ws[3])
 		if !ok0 || err != nil || !ok1 {
@@ -295,7 +407,7 @@ func (p *prop) execLine(l string) string {
 		}
 		return okOrType(p.st[i].SetAttrs(id, m))
 	case ws[0] == "bulk" && len(ws) == 3:
-		i, ok0 := storeIdx(ws[1])
+		i, ok0 := p.storeIdx(ws[1])
 		if !ok0 {
 			return "bad-op"
 		}
@@ -319,7 +431,7 @@ func (p *prop) execLine(l string) string {
 		}
 		return okOrType(p.st[i].SetBulkAttrs(bm))
 	case ws[0] == "get" && len(ws) == 3:
-		i, ok0 := storeIdx(ws[1])
+		i, ok0 := p.storeIdx(ws[1])
 		id, err := strconv.ParseUint(ws[2], 10, 64)
 		if !ok0 || err != nil {
 			return "bad-op"
@@ -371,7 +483,10 @@ func (p *prop) execLine(l string) string {
 		vh.Count("caller-mutations")
 		return "ok"
 	case ws[0] == "reopen" && len(ws) == 2:
-		i, ok0 := storeIdx(ws[1])
+		if ws[1] != "0" && ws[1] != "1" {
+			return "bad-op"
+		}
+		i, ok0 := p.storeIdx(ws[1])
 		if !ok0 {
 			return "bad-op"
 		}
@@ -381,7 +496,7 @@ func (p *prop) execLine(l string) string {
 		}
 		return "ok"
 	case ws[0] == "blocks" && len(ws) == 2:
-		i, ok0 := storeIdx(ws[1])
+		i, ok0 := p.storeIdx(ws[1])
 		if !ok0 {
 			return "bad-op"
 		}
@@ -395,7 +510,7 @@ func (p *prop) execLine(l string) string {
 		}
 		return showCSV(ids)
 	case ws[0] == "bdata" && len(ws) == 3:
-		i, ok0 := storeIdx(ws[1])
+		i, ok0 := p.storeIdx(ws[1])
 		blk, err := strconv.ParseUint(ws[2], 10, 50)
 		if !ok0 || err != nil {
 			return "bad-op"
@@ -462,8 +577,8 @@ func (p *prop) execLine(l string) string {
 		}
 		return strings.Join(ss, " ")
 	case ws[0] == "diff" && len(ws) == 3:
-		i, ok0 := storeIdx(ws[1])
-		j, ok1 := storeIdx(ws[2])
+		i, ok0 := p.storeIdx(ws[1])
+		j, ok1 := p.storeIdx(ws[2])
 		if !ok0 || !ok1 {
 			return "bad-op"
 		}
@@ -473,6 +588,101 @@ func (p *prop) execLine(l string) string {
 			return "err:other"
 		}
 		return showCSV(pilosa.VerifC25AttrBlocksDiff(a, b))
+	case ws[0] == "erow" && len(ws) == 3, ws[0] == "ecol" && len(ws) == 3:
+		id, err := strconv.ParseUint(ws[1], 10, 62)
+		args, ok := e2eAttrs(ws[2])
+		if err != nil || !ok || !p.ensureE2E() {
+			return "bad-op"
+		}
+		var q string
+		if ws[0] == "erow" {
+			// a second call of another kind keeps the query off the bulk path
+			q = fmt.Sprintf("SetRowAttrs(f, %d%s) Count(Row(f=0))", id, args)
+		} else {
+			q = fmt.Sprintf("SetColumnAttrs(%d%s)", id, args)
+		}
+		_, verdict := p.pql(q)
+		vh.Count("e2e-" + ws[0])
+		return verdict
+	case ws[0] == "ebulk" && len(ws) == 2:
+		if !p.ensureE2E() {
+			return "bad-op"
+		}
+		var calls []string
+		seen := map[uint64]bool{}
+		if ws[1] != "_" {
+			for _, part := range strings.Split(ws[1], "|") {
+				ia := strings.Split(part, ":")
+				if len(ia) != 2 {
+					return "bad-op"
+				}
+				id, err := strconv.ParseUint(ia[0], 10, 62)
+				args, ok := e2eAttrs(ia[1])
+				if err != nil || !ok || seen[id] {
+					return "bad-op"
+				}
+				seen[id] = true
+				calls = append(calls, fmt.Sprintf("SetRowAttrs(f, %d%s)", id, args))
+			}
+		}
+		if len(calls) == 0 {
+			return "ok"
+		}
+		_, verdict := p.pql(strings.Join(calls, " "))
+		vh.Count("e2e-ebulk")
+		return verdict
+	case ws[0] == "erowget" && len(ws) == 2:
+		id, err := strconv.ParseUint(ws[1], 10, 62)
+		if err != nil || !p.ensureE2E() {
+			return "bad-op"
+		}
+		res, verdict := p.pql(fmt.Sprintf("Row(f=%d)", id))
+		if verdict != "ok" || len(res) != 1 {
+			return "err:other"
+		}
+		row, ok := res[0].(*pilosa.Row)
+		if !ok {
+			return "err:other"
+		}
+		p.handles = append(p.handles, row.Attrs)
+		vh.Count("e2e-erowget")
+		return showAttrs(row.Attrs)
+	case ws[0] == "ediff" && len(ws) == 3:
+		if ws[1] != "2" && ws[1] != "3" {
+			return "bad-op"
+		}
+		i, ok0 := p.storeIdx(ws[1])
+		j, ok1 := p.storeIdx(ws[2])
+		if !ok0 || !ok1 {
+			return "bad-op"
+		}
+		remote, err := p.st[j].Blocks()
+		if err != nil {
+			return "err:other"
+		}
+		var m map[uint64]map[string]interface{}
+		if i == 2 {
+			m, err = p.s.API.FieldAttrDiff(context.Background(), p.index, "f", remote)
+		} else {
+			m, err = p.s.API.IndexAttrDiff(context.Background(), p.index, remote)
+		}
+		if err != nil {
+			return "err:other"
+		}
+		vh.Count("e2e-ediff")
+		if len(m) == 0 {
+			return "-"
+		}
+		ids := make([]uint64, 0, len(m))
+		for id := range m {
+			ids = append(ids, id)
+		}
+		sort.Slice(ids, func(a, b int) bool { return ids[a] < ids[b] })
+		ss := make([]string, len(ids))
+		for k, id := range ids {
+			ss[k] = fmt.Sprintf("%d{%s}", id, showAttrs(m[id]))
+		}
+		return strings.Join(ss, " ")
 	case ws[0] == "rawdiff" && len(ws) == 3:
 		a, ok0 := parseRaw(ws[1])
 		b, ok1 := parseRaw(ws[2])
@@ -544,11 +754,95 @@ func (p *prop) Gen(r *vh.Rng, tier string, n int) []vh.Case {
 		cr := r.Fork()
 		if cr.Chance(1, 12) {
 			cases = append(cases, genRawDiff(cr))
+		} else if cr.Chance(1, 6) {
+			cases = append(cases, genE2E(cr))
 		} else {
 			cases = append(cases, genHistory(cr, tier))
 		}
 	}
 	return cases
+}
+
+func genE2EVal(r *vh.Rng) string {
+	switch x := r.Intn(100); {
+	case x < 25:
+		return r.PickS("s61", "s6162", "s7a39", "s31")
+	case x < 50:
+		return "i" + strconv.Itoa(r.Pick(0, 1, 2, -1, 5, 9223372036854775807, -9223372036854775808))
+	case x < 62:
+		return r.PickS("b0", "b1")
+	case x < 74:
+		return r.PickS("f3ff8000000000000", "fc002000000000000")
+	default:
+		return "~"
+	}
+}
+
+func genE2EAttrs(r *vh.Rng, keys []string) string {
+	var parts []string
+	for _, k := range keys {
+		if r.Chance(1, 2) {
+			parts = append(parts, k+"="+genE2EVal(r))
+		}
+	}
+	if len(parts) == 0 {
+		return keys[r.Intn(len(keys))] + "=" + genE2EVal(r)
+	}
+	return strings.Join(parts, ";")
+}
+
+// genE2E: attribute calls through PQL and the executor (SetRowAttrs on and off the bulk path,
+// SetColumnAttrs, Row() attributes, the attribute-diff API), mixed with direct store access.
+func genE2E(r *vh.Rng) vh.Case {
+	keys := []string{"k61", "k62", "k6162"}[:r.Range(1, 3)]
+	ids := []int{0, 1, 99, 100, 101, 250}
+	pick := func() int { return ids[r.Intn(len(ids))] }
+	var lines []string
+	gets := 0
+	for i := 0; i < r.Range(8, 24); i++ {
+		switch x := r.Intn(100); {
+		case x < 18:
+			lines = append(lines, fmt.Sprintf("erow %d %s", pick(), genE2EAttrs(r, keys)))
+		case x < 30:
+			var parts []string
+			for _, id := range ids {
+				if r.Chance(2, 5) {
+					parts = append(parts, fmt.Sprintf("%d:%s", id, genE2EAttrs(r, keys)))
+				}
+			}
+			b := "_"
+			if len(parts) > 0 {
+				b = strings.Join(parts, "|")
+			}
+			lines = append(lines, "ebulk "+b)
+		case x < 42:
+			lines = append(lines, fmt.Sprintf("ecol %d %s", pick(), genE2EAttrs(r, keys)))
+		case x < 58:
+			lines = append(lines, fmt.Sprintf("erowget %d", pick()))
+			gets++
+		case x < 66:
+			lines = append(lines, fmt.Sprintf("get %d %d", r.Range(2, 3), pick()))
+			gets++
+		case x < 76:
+			if gets > 0 {
+				v := genE2EVal(r)
+				lines = append(lines, fmt.Sprintf("mut %d %s=%s", r.Intn(gets), keys[r.Intn(len(keys))], v))
+			}
+		case x < 82:
+			lines = append(lines, fmt.Sprintf("set %d %d %s", r.Range(0, 3), pick(), genE2EAttrs(r, keys)))
+		case x < 88:
+			lines = append(lines, fmt.Sprintf("bdata %d %d", r.Range(2, 3), r.Pick(0, 1, 2)))
+		case x < 92:
+			lines = append(lines, fmt.Sprintf("blocks %d", r.Range(2, 3)))
+		default:
+			lines = append(lines, fmt.Sprintf("ediff %d %d", r.Range(2, 3), r.Range(0, 3)))
+		}
+	}
+	for _, id := range ids {
+		lines = append(lines, fmt.Sprintf("erowget %d", id), fmt.Sprintf("get 3 %d", id))
+	}
+	lines = append(lines, "ediff 2 3", "ediff 3 2", "ediff 2 0")
+	return vh.Case{Lines: lines, Nontrivial: true}
 }
 
 func genRawDiff(r *vh.Rng) vh.Case {
@@ -672,6 +966,11 @@ func genHistory(r *vh.Rng, tier string) vh.Case {
 
 func main() {
 	p := &prop{}
-	defer p.reset()
+	defer func() {
+		p.reset()
+		if p.s != nil {
+			p.s.Stop()
+		}
+	}()
 	vh.Main(p)
 }
